@@ -28,6 +28,24 @@ add("C02", "E-SIM", "property-based testing: generated scenarios + fault tape; s
 add("C05", "E-SIM", "property-based testing: generated payload sizes around k*fragment_size over the accepted fragment-size range, fragment-level fault tape; byte-identity and completeness oracle",
     "Held on N generated (fragment size, payload size, fragment fault) combinations.", SIM_NOTE)
 
+CACHE_NOTE = SIM_NOTE + "; reference model R-READER (DESIGN.md Appendix A) written from DDS 1.4, perfect network so arrival order == op order"
+add("C18", "E-SIM", "model-based property testing: generated write/read histories vs reference reader-cache model (history depth sub-oracle)",
+    "Held on N generated histories with KEEP_LAST depth 1..4 and max_samples_per_instance in {d, d+1, unlimited}, compared after every step.", CACHE_NOTE)
+add("C19", "E-SIM", "model-based property testing: generated histories under small resource limits; model predicts every rejection (count, reason, instance) observed through the listener",
+    "Held on N generated histories; reader side only (writer-side limits are exercised by C28's scenarios).", CACHE_NOTE)
+add("C20", "E-SIM", "model-based property testing: generated read/take calls with all mask combinations, max_samples and specific instances vs reference model (set, order, marking, removal, ranks, NoData)",
+    "Held on N generated histories; known finding: collections are not grouped by instance (soft check, everything else still compared).", CACHE_NOTE)
+add("C21", "E-SIM", "model-based property testing: generated source timestamps (random/equal/ascending/descending), order oracle per instance",
+    "Held on N generated histories.", CACHE_NOTE)
+add("C22", "E-SIM", "model-based property testing: generated write/dispose/unregister histories from 1-2 writers vs DDS instance life-cycle model (instance state, view state, generation counts)",
+    "Held on N generated histories.", CACHE_NOTE)
+add("C23", "E-SIM", "model-based property testing: generated read/take_next_instance walks over 5 instances with masks that leave instances without matches",
+    "Held on N generated histories; an in-between instance holding only dispose/unregister notifications may be returned first (tolerance).", CACHE_NOTE)
+add("C24", "E-SIM", "model-based property testing: generated histories from 2-3 writers with distinct strengths under EXCLUSIVE ownership vs owner model",
+    "Held on N generated histories except the listed known finding (hand-over ignores stronger registered writer); equal strengths and deadline-driven hand-over not generated.", CACHE_NOTE)
+add("C25", "E-SIM", "property-based testing: generated timestamps around minimum_separation; invariants over everything ever presented",
+    "Two known findings (filter forgets taken samples; older-timestamp arrival) are excluded by signature; the in-cache in-order filter and the no-over-filtering direction stay guarded.", CACHE_NOTE)
+
 def main():
     props = [json.loads(l) for l in open(os.path.join(ROOT, "properties.jsonl"))]
     reasons = {}
